@@ -11,7 +11,7 @@ PROPERTY = 'C14'
 LEVEL = 'exploration'
 RULE = (
     'tickers `async for now in interval(p)` / `delay(p)` with p in {0, 1/8, 1, 5, 20}, 1-12 '
-    'iterations whose body durations are <, = and > p (also zero), start times {0, 3/8, 1e6}, '
+    'iterations whose body durations are <, = and > p (also zero), start times {0, 3/8, 1e6, 1e10, 2**45}, '
     '1-4 tickers side by side, some inside until(time + D) / nested scopes, negative periods. '
     'Oracle: arithmetic model over the generated body-duration sequence - tick times, yielded '
     'value == time.now, IntervalExceeded exactly at the first iteration request after a body run '
@@ -54,7 +54,7 @@ def make_case(seed, index, tier):
         tickers.append({'name': 'k%d' % number, 'how': rng.choice(['interval', 'delay']),
                         'period': period, 'durations': durations, 'deadline': deadline,
                         'offset': rng.choice([0, 0, 0.375, 1]), 'scoped': rng.random() < 0.3})
-    return {'seed': seed, 'index': index, 'tier': tier, 'start': rng.choice([0, 0, 0.375, 1e6]),
+    return {'seed': seed, 'index': index, 'tier': tier, 'start': rng.choice([0, 0, 0.375, 1e6, 1e10, 2.0 ** 45]),
             'tickers': tickers}
 
 
